@@ -266,13 +266,14 @@ def run(ck, only=None):
         open(P("only_comment.h"), "w").write("/* nothing */\n")
         open(P("bom.h"), "wb").write(b"\xef\xbb\xbfint with_bom;\n")
         open(P("crlf.h"), "wb").write(b"struct C {\r\n  int x;\r\n};\r\n")
+        open(P("macro_div0.h"), "w").write("#define DZ (1 / 0)\n#define MZ (7 % 0)\n#define UZ (1u / (2 - 2))\n#define SHL (1 << 100)\n#define SHN (1 << -1)\n#define OVF (9223372036854775807 + 1)\n#define MINDIV (0x8000000000000000 / -1)\nint after_macros;\n")
         faults = [
             ("missing", [P("missing.h")], "NotExist"), ("directory", [P("a_dir.h")], "FolderAsHeader"),
             ("mode000", [P("mode000.h")], "InsufficientPermissions"), ("mode200", [P("mode200.h")], "InsufficientPermissions"),
             ("dangling-symlink", [P("dangling.h")], "NotExist"), ("symlink-loop", [P("loop.h")], "NotExist"),
             ("enotdir", [P("plain.h/inner.h")], "NotExist"), ("enametoolong", [P("n" * 300 + ".h")], "NotExist"),
             ("good-symlink", [P("good_link.h")], "ok"), ("empty-file", [P("empty.h")], "ok"), ("only-comment", [P("only_comment.h")], "ok"),
-            ("bom", [P("bom.h")], "clang"), ("crlf", [P("crlf.h")], "ok"),
+            ("bom", [P("bom.h")], "clang"), ("crlf", [P("crlf.h")], "ok"), ("macro-division-by-zero", [P("macro_div0.h")], "ok"),
             ("missing-include", [P("missing_inc.h")], "clang"), ("error-directive", [P("error_directive.h")], "clang"),
             ("bracket-depth", [P("bracket_depth.h")], "clang"), ("non-utf8-identifier", [P("nonutf8.h")], "clang"),
             ("non-utf8-doc-comment", [P("nonutf8_comment.h")], "clang"), ("nul-byte", [P("nul_byte.h")], "clang"),
